@@ -9,7 +9,7 @@ use std::collections::BTreeMap;
 use std::rc::Rc;
 
 pub const SLOTS: usize = 6;
-pub const PATHS: usize = 3;
+pub const PATHS: usize = 4;
 
 #[derive(Clone, Copy, Debug, PartialEq, Eq)]
 pub enum LinkKind {
@@ -218,13 +218,56 @@ impl View {
     }
 }
 
-/// The three image paths of a run. Two of them share their file stem and differ only in the
+/// The four image paths of a run. Two of them share their file stem and differ only in the
 /// extension, one of which is `.tmp`; the third is long and not ASCII (a multi-byte character
-/// straddles every plausible byte offset counted from its end).
+/// straddles every plausible byte offset counted from its end); the fourth is not UTF-8 at all.
+/// This is the disk's name of the path (see `escape`); sodg gets `path_os()`.
 pub fn path_name(p: usize) -> String {
     match p {
         0 => "image-work.sodg".to_string(),
         1 => "image-work.tmp".to_string(),
-        _ => "image-図aя図bя図cя図dя図eя図fя図gя図hя図iя図jя図kя図lяxy.sodg".to_string(),
+        2 => "image-図aя図bя図cя図dя図eя図fя図gя図hя図iя図jя図kя図lяxy.sodg".to_string(),
+        _ => escape(b"image-\xFF\xFEraw\xE5.sodg"),
     }
+}
+
+/// The path as the operating system (and sodg) sees it.
+pub fn path_os(p: usize) -> std::path::PathBuf {
+    std::path::PathBuf::from(unescape(&path_name(p)))
+}
+
+/// File names are byte strings. The disk keys its files by `String`: bytes that are not part
+/// of a valid UTF-8 sequence are kept as the private-use characters U+E000 + byte.
+pub fn escape(bytes: &[u8]) -> String {
+    let mut out = String::new();
+    let mut rest = bytes;
+    loop {
+        match std::str::from_utf8(rest) {
+            Ok(s) => {
+                out.push_str(s);
+                return out;
+            }
+            Err(e) => {
+                let (good, bad) = rest.split_at(e.valid_up_to());
+                out.push_str(std::str::from_utf8(good).unwrap_or(""));
+                out.push(char::from_u32(0xE000 + u32::from(bad[0])).unwrap_or('?'));
+                rest = &bad[1..];
+            }
+        }
+    }
+}
+
+pub fn unescape(name: &str) -> std::ffi::OsString {
+    use std::os::unix::ffi::OsStringExt;
+    let mut out: Vec<u8> = Vec::new();
+    for c in name.chars() {
+        let u = c as u32;
+        if (0xE000..0xE100).contains(&u) {
+            out.push((u - 0xE000) as u8);
+        } else {
+            let mut b = [0_u8; 4];
+            out.extend_from_slice(c.encode_utf8(&mut b).as_bytes());
+        }
+    }
+    std::ffi::OsString::from_vec(out)
 }
